@@ -1,0 +1,34 @@
+//go:build verif
+
+package support
+
+// defaultSingletonComponentRegistry implements the interface-level contract of
+// container.SingletonComponentRegistry (see container/zz_contracts_verif.go); the bindings below define the
+// model fields over the representation.
+
+//@ bind (r *defaultSingletonComponentRegistry) container.SingletonComponentRegistry.L1Dom = r.singletonObjects.Dom
+//@ bind (r *defaultSingletonComponentRegistry) container.SingletonComponentRegistry.L1 = r.singletonObjects.Val
+//@ bind (r *defaultSingletonComponentRegistry) container.SingletonComponentRegistry.L2Dom = r.earlySingletonObjects.Dom
+//@ bind (r *defaultSingletonComponentRegistry) container.SingletonComponentRegistry.L2 = r.earlySingletonObjects.Val
+//@ bind (r *defaultSingletonComponentRegistry) container.SingletonComponentRegistry.L3Dom = r.singletonFactories.Dom
+//@ bind (r *defaultSingletonComponentRegistry) container.SingletonComponentRegistry.L3 = r.singletonFactories.Val
+//@ bind (r *defaultSingletonComponentRegistry) container.SingletonComponentRegistry.IC = r.singletonCurrentlyInCreation.Mem
+//@ bind (r *defaultSingletonComponentRegistry) container.SingletonComponentRegistry.RepInv = r.singletonObjects != nil && r.earlySingletonObjects != nil && r.singletonFactories != nil && r.singletonCurrentlyInCreation != nil && r.singletonObjects != r.earlySingletonObjects && r.singletonObjects != r.singletonFactories && r.earlySingletonObjects != r.singletonFactories
+
+//@ func (*defaultSingletonComponentRegistry).GetSingleton
+//@ implements container.SingletonComponentRegistry
+
+//@ func (*defaultSingletonComponentRegistry).GetSingletonOrCreateByFactory
+//@ implements container.SingletonComponentRegistry
+
+//@ func (*defaultSingletonComponentRegistry).AddSingleton
+//@ implements container.SingletonComponentRegistry
+
+//@ func (*defaultSingletonComponentRegistry).AddSingletonFactory
+//@ implements container.SingletonComponentRegistry
+
+//@ func (*defaultSingletonComponentRegistry).RemoveSingleton
+//@ implements container.SingletonComponentRegistry
+
+//@ func (*defaultSingletonComponentRegistry).IsSingletonCurrentlyInCreation
+//@ implements container.SingletonComponentRegistry
